@@ -745,7 +745,12 @@ impl TypeSpace {
                 type_entry
             }
             TypeEntryDetails::Struct(details) => {
-                details.default = default;
+                // The object conversion consumes the metadata (it returns
+                // none), and the struct already carries the default of its
+                // schema: don't overwrite it with nothing.
+                if default.is_some() {
+                    details.default = default;
+                }
                 type_entry
             }
             TypeEntryDetails::Newtype(details) => {
